@@ -182,6 +182,7 @@ def ringFineCase (inp impl : String) : CaseOut :=
     let spec :=
       if negLen then "FAIL:C14 Len() returned a negative number (the counter was seen between two updates of one operation)"
       else if (impl.splitOn "PANIC").length > 1 then "FAIL:C14 a ring operation panicked under concurrency"
+      else if (impl.splitOn "DEADLOCK").length > 1 then "FAIL:C14 a thread waits for the mutex for ever (a method returned, or panicked, while holding it)"
       else if !errs.isEmpty then "FAIL:C14 mutual exclusion of the critical sections: " ++ String.intercalate " | " errs
       else if endS ≠ modelEnd then s!"FAIL:C14 not linearizable: implementation [{endS}] model [{modelEnd}]"
       else "ok"
